@@ -141,6 +141,39 @@ func (c msgCase) libCounted() *llmnr.Message {
 	return m
 }
 
+// forValidate is the message as it is handed to Message.Validate. Validate is judged for what the
+// property speaks about - valid names, header counts equal to the sections - and not for what it
+// makes of RDATA: a record of class IN and type A / AAAA whose RDATA is not an address of 4 / 16
+// octets (the generators draw type, class and RDATA independently) stands in the copy with zero
+// RDATA of that length, all else - names, counts, the other records - as in m. m is not changed.
+func forValidate(m *llmnr.Message) *llmnr.Message {
+	fix := func(in []llmnr.ResourceRecord) []llmnr.ResourceRecord {
+		var out []llmnr.ResourceRecord
+		for i, r := range in {
+			want := len(r.RData)
+			if r.Class == llmnr.ClassIN && r.Type == llmnr.TypeA {
+				want = 4
+			} else if r.Class == llmnr.ClassIN && r.Type == llmnr.TypeAAAA {
+				want = 16
+			}
+			if len(r.RData) == want {
+				continue
+			}
+			if out == nil {
+				out = append([]llmnr.ResourceRecord(nil), in...)
+			}
+			out[i].RData, out[i].RDLength = make([]byte, want), uint16(want)
+		}
+		if out == nil {
+			return in
+		}
+		return out
+	}
+	c := *m
+	c.Answers, c.Authority, c.Additional = fix(m.Answers), fix(m.Authority), fix(m.Additional)
+	return &c
+}
+
 // sameName: the root name may be written "" or "." (DESIGN C09).
 func sameName(got string, want jName) bool {
 	if len(want) == 0 {
@@ -404,6 +437,17 @@ func genRDLenField(t *rapid.T) *uint16 {
 	return &v
 }
 
+// consistentRDLen: the record with its RDLength field as a caller of AddAnswer leaves it - unset (0)
+// or len(RData); a stale value becomes len(RData). (A record that contradicts itself may be refused by
+// AddAnswer; stale values are for the records placed into the sections directly, where Encode
+// recomputes the field.)
+func consistentRDLen(r jRR) jRR {
+	if r.RDLenField != nil && *r.RDLenField != 0 && int(*r.RDLenField) != len(r.RData)+r.Pad {
+		r.RDLenField = nil
+	}
+	return r
+}
+
 func genRR(t *rapid.T, pool *[]jName, maxRData int) jRR {
 	r := jRR{Name: genName(t, pool), Type: rapid.Uint16().Draw(t, "type"), Class: rapid.Uint16().Draw(t, "class"), TTL: rapid.Uint32().Draw(t, "ttl")}
 	r.RData, r.Pad, r.PadSeed = genRData(t, maxRData)
@@ -587,10 +631,10 @@ func checkRoundtrip(c msgCase) []vf.Finding {
 	fs := compareLib("DecodeMessage(Encode(m))", got, c)
 	// Validate (header counts equal the slices, names within the label/name limits) holds for the
 	// message with its counts filled in by the caller, and for what DecodeMessage returns for it
-	if err := c.libCounted().Validate(); err != nil {
+	if err := forValidate(c.libCounted()).Validate(); err != nil {
 		fs = append(fs, vf.F("Message.Validate", "valid-message-rejected", "message with counts set to the section lengths: %v", err))
 	}
-	if err := got.Validate(); err != nil {
+	if err := forValidate(got).Validate(); err != nil {
 		fs = append(fs, vf.F("Message.Validate", "valid-message-rejected", "decoded message: %v", err))
 	}
 	// encode∘decode is the identity on the library's own output (root name included)
@@ -915,19 +959,21 @@ func built(m *llmnr.Message, id, flags uint16) msgCase {
 	return c
 }
 
-func countQ(qs []llmnr.Question, name string, typ, class uint16) (n int) {
+// countQ counts the questions with the given name (the root as "" or "."), type and class.
+func countQ(qs []llmnr.Question, name jName, typ, class uint16) (n int) {
 	for _, q := range qs {
-		if q.Name == name && q.Type == typ && q.Class == class {
+		if sameName(q.Name, name) && q.Type == typ && q.Class == class {
 			n++
 		}
 	}
 	return
 }
 
-// countRR counts the records with the given name, type, class and data (and TTL, when ttl >= 0).
-func countRR(rs []llmnr.ResourceRecord, name string, typ, class uint16, ttl int64, data []byte) (n int) {
+// countRR counts the records with the given name (the root as "" or "."), type, class and data
+// (and TTL, when ttl >= 0).
+func countRR(rs []llmnr.ResourceRecord, name jName, typ, class uint16, ttl int64, data []byte) (n int) {
 	for _, r := range rs {
-		if r.Name == name && r.Type == typ && r.Class == class && (ttl < 0 || int64(r.TTL) == ttl) && bytes.Equal(r.RData, data) {
+		if sameName(r.Name, name) && r.Type == typ && r.Class == class && (ttl < 0 || int64(r.TTL) == ttl) && bytes.Equal(r.RData, data) {
 			n++
 		}
 	}
@@ -941,33 +987,33 @@ func checkBuildAPI(c apiCase) []vf.Finding {
 	for i, op := range c.Ops {
 		var who string
 		var call func() error
-		// what the call is asked to add has to be in its section afterwards, once more than before
+		// what the call is asked to add has to be in its section afterwards (whether a call adds an
+		// entry that is there already is the library's choice: presence is demanded, not growth)
 		var count func() int
 		name := op.Name.text()
 		switch op.Kind {
 		case "question":
 			who, call = "Message.AddQuestion", func() error { return m.AddQuestion(name, op.Type, op.Class) }
-			count = func() int { return countQ(m.Questions, name, op.Type, op.Class) }
+			count = func() int { return countQ(m.Questions, op.Name, op.Type, op.Class) }
 		case "answer":
-			r := op.RR
+			r := consistentRDLen(op.RR)
 			r.Name, r.Type, r.Class = op.Name, op.Type, op.Class
 			data := r.data()
 			who, call = "Message.AddAnswer", func() error { return m.AddAnswer(r.lib()) }
-			count = func() int { return countRR(m.Answers, name, op.Type, op.Class, int64(r.TTL), data) }
+			count = func() int { return countRR(m.Answers, op.Name, op.Type, op.Class, int64(r.TTL), data) }
 		case "a":
 			who, call = "Message.AddAnswerClassINTypeA", func() error { return m.AddAnswerClassINTypeA(name, net.IP(op.RR.RData).String()) }
-			count = func() int { return countRR(m.Answers, name, llmnr.TypeA, llmnr.ClassIN, -1, op.RR.RData) }
+			count = func() int { return countRR(m.Answers, op.Name, llmnr.TypeA, llmnr.ClassIN, -1, op.RR.RData) }
 		default:
 			who, call = "Message.AddAnswerClassINTypeAAAA", func() error { return m.AddAnswerClassINTypeAAAA(name, net.IP(op.RR.RData).String()) }
-			count = func() int { return countRR(m.Answers, name, llmnr.TypeAAAA, llmnr.ClassIN, -1, op.RR.RData) }
+			count = func() int { return countRR(m.Answers, op.Name, llmnr.TypeAAAA, llmnr.ClassIN, -1, op.RR.RData) }
 		}
-		before := count()
 		err := call()
 		if err != nil {
 			return []vf.Finding{vf.F(who, "valid-name-rejected", "call %d, name %q (%d labels, %d octets on the wire): %v", i, op.Name.text(), len(op.Name), op.Name.ref().WireLen(), err)}
 		}
-		if count() <= before {
-			fs = append(fs, vf.F(who, "added-entry-not-in-message", "call %d (%s, name %q): no new entry with the given name, type, class and data in the section", i, op.Kind, name))
+		if count() < 1 {
+			fs = append(fs, vf.F(who, "added-entry-not-in-message", "call %d (%s, name %q): no entry with the given name, type, class and data in the section", i, op.Kind, name))
 		}
 	}
 	// the expected content is the message as built: which further entries the helpers add on their
@@ -977,7 +1023,7 @@ func checkBuildAPI(c apiCase) []vf.Finding {
 	if int(m.QDCount) != len(m.Questions) || int(m.ANCount) != len(m.Answers) {
 		fs = append(fs, vf.F("Message.Add*", "header-counts-differ", "QDCOUNT %d ANCOUNT %d with %d questions, %d answers in the message", m.QDCount, m.ANCount, len(m.Questions), len(m.Answers)))
 	}
-	if err := m.Validate(); err != nil {
+	if err := forValidate(m).Validate(); err != nil {
 		fs = append(fs, vf.F("Message.Validate", "valid-message-rejected", "message built by Add*: %v", err))
 	}
 	wire, err := m.Encode()
@@ -989,7 +1035,7 @@ func checkBuildAPI(c apiCase) []vf.Finding {
 		return append(fs, vf.F("llmnr.DecodeMessage", "own-encoding-rejected", "%v (wire %d bytes)", err, len(wire)))
 	}
 	fs = append(fs, compareLib("DecodeMessage(Encode(built by Add*))", got, want)...)
-	if err := got.Validate(); err != nil {
+	if err := forValidate(got).Validate(); err != nil {
 		fs = append(fs, vf.F("Message.Validate", "valid-message-rejected", "decoded message: %v", err))
 	}
 	ref, err := dns.Parse(wire)
@@ -1012,7 +1058,7 @@ func TestBuildAPI(t *testing.T) {
 			case "question":
 				op.Type, op.Class = rapid.Uint16().Draw(t, "qtype"), rapid.Uint16().Draw(t, "qclass")
 			case "answer":
-				op.RR = genRR(t, &pool, 64)
+				op.RR = consistentRDLen(genRR(t, &pool, 64))
 				op.Name, op.Type, op.Class = op.RR.Name, op.RR.Type, op.RR.Class
 				op.RR.Name, op.RR.Type, op.RR.Class = nil, 0, 0
 			case "a":
